@@ -444,6 +444,19 @@ class ExecutionState:
             # Empty checkpoint (async for performance)
             execution_state.create_checkpoint(is_sync=False)
         """
+        # Check if background checkpointing has failed
+        if self._checkpointing_failed.is_set():
+            # This will raise the stored BackgroundThreadError
+            self._checkpointing_failed.wait()
+
+        # Conditionally create completion event based on is_sync parameter
+        completion_event: CompletionEvent | None = (
+            CompletionEvent() if is_sync else None
+        )
+
+        # Create wrapper object for queue
+        queued_op = QueuedOperation(operation_update, completion_event)
+
         # if this is CONTEXT complete, mark incomplete descendants as orphans so the children can't complete after the parent
         if operation_update is not None:
             # Use single lock to coordinate completion and checkpoint validation
@@ -463,15 +476,6 @@ class ExecutionState:
                     ):
                         self._parent_done.add(operation_update.operation_id)
 
-                # Handle CONTEXT completion - mark descendants while holding lock
-                if (
-                    operation_update.operation_type == OperationType.CONTEXT
-                    and operation_update.action
-                    in {OperationAction.SUCCEED, OperationAction.FAIL}
-                ):
-                    self._mark_orphans(operation_update.operation_id)
-                    self._completed_contexts.add(operation_update.operation_id)
-
                 # Check if this operation's parent is done
                 if operation_update.operation_id in self._parent_done:
                     logger.debug(
@@ -486,21 +490,22 @@ class ExecutionState:
                         operation_id=operation_update.operation_id,
                     )
 
-        # Check if background checkpointing has failed
-        if self._checkpointing_failed.is_set():
-            # This will raise the stored BackgroundThreadError
-            self._checkpointing_failed.wait()
+                # Handle CONTEXT completion - mark descendants while holding lock
+                if (
+                    operation_update.operation_type == OperationType.CONTEXT
+                    and operation_update.action
+                    in {OperationAction.SUCCEED, OperationAction.FAIL}
+                ):
+                    self._mark_orphans(operation_update.operation_id)
+                    self._completed_contexts.add(operation_update.operation_id)
 
-        # Conditionally create completion event based on is_sync parameter
-        completion_event: CompletionEvent | None = (
-            CompletionEvent() if is_sync else None
-        )
-
-        # Create wrapper object for queue
-        queued_op = QueuedOperation(operation_update, completion_event)
-
-        # Enqueue the wrapper object (operation_update can be None for empty checkpoints)
-        self._checkpoint_queue.put(queued_op)
+                # Enqueue while still holding the lock: the orphan check and the enqueue must be
+                # atomic with respect to a parent's completion (mark + enqueue), otherwise a
+                # descendant that passed the check could be enqueued behind the parent's completion
+                self._checkpoint_queue.put(queued_op)
+        else:
+            # Enqueue the wrapper object (operation_update is None for empty checkpoints)
+            self._checkpoint_queue.put(queued_op)
 
         # The background thread may have failed after the check above. It marks the failure
         # before it drains the queues, so either it still drains this operation (and wakes us)
